@@ -46,9 +46,10 @@ def make_catalog(path, ra, dec, z=None, w=None, patch=None, centers=None, patch_
     """Catalog.from_dataframe with columns ra/dec/(z)/(w)/(patch); coordinates in radian by default"""
     from yaw import Catalog
     df = dataframe(ra, dec, z, w, patch)
-    if overwrite and Path(path).exists():
-        # scratch directories of the harness: start from nothing (a creation that failed earlier leaves a directory
-        # that is not a catalog cache, which the library rightly refuses to overwrite)
+    if overwrite and Path(path).exists() and not (Path(path) / "patch_ids.bin").exists():
+        # scratch directories of the harness: a creation that failed earlier leaves a directory that is not a catalog
+        # cache, which the library rightly refuses to overwrite — remove it; a COMPLETE earlier catalog is left in place
+        # so that the library's own overwrite path runs (state kept about the old catalog must not leak into the new one)
         shutil.rmtree(path, ignore_errors=True)
     return Catalog.from_dataframe(
         path, df, ra_name="ra", dec_name="dec",
